@@ -12,14 +12,18 @@ CLASSES = ["Identity", "Logit", "Log", "BoxCox2", "BoxCox1lam", "BoxCox1nu",
            "BoxCox2sym", "YeoJohnson", "Reciprocal", "Softmax", "Sinh", "LogSinh",
            "Manly"]
 POWER_FAMILY = ["BoxCox2", "BoxCox1lam", "BoxCox1nu", "BoxCox2sym"]
-LAM_BRANCH = [0.0, 1e-10, -1e-10, 1e-10 * (1 + 1e-7), 1e-10 * (1 - 1e-7),
+# (the last entries of the branch lists are the smallest non-zero doubles: exponents a
+# caller gets from an underflowing computation - non-zero, yet closer to 0 than any
+# product with them can express)
+LAM_BRANCH = [5e-324, -1e-319, 0.0, 1e-10, -1e-10, 1e-10 * (1 + 1e-7), 1e-10 * (1 - 1e-7),
               -1e-10 * (1 + 1e-7), 1.5e-10, -1.5e-10, 2e-10, 5e-10, 1e-9, -1e-9,
               1e-8, 1e-6, -1e-6, 1e-3, -1e-3]
 LAM_REG = [0.2, 0.5, 1.0, 2.0, 3.0, -0.5, -1.0, -2.5, 0.01, 1.3]
-YJ_LAM = [0.0, 1e-9, -1e-9, 0.9e-8, 1.1e-8, 1e-7, -1e-7, 2.0, 2.0 + 1e-9, 2.0 - 1e-9,
+YJ_LAM = [1e-320, -5e-324, 0.0, 1e-9, -1e-9, 0.9e-8, 1.1e-8, 1e-7, -1e-7, 2.0, 2.0 + 1e-9, 2.0 - 1e-9,
           2.0 + 1e-7, 2.0 - 1e-7, 2.0 - 1.9e-5, 2.0 - 2.1e-5, 2.0 + 2.1e-5,
           1.0, 0.5, 1.5, -1.0, 3.0, 0.2, 2.5, -0.3]
-MANLY_LAM = [0.0, 1e-10, 1e-3, -1e-3, 5.0, -5.0, 0.1, 1.0, -1.0, 2.5, -0.02, 0.3]
+MANLY_LAM = [0.0, 1e-10, 1e-3, -1e-3, 5.0, -5.0, 0.1, 1.0, -1.0, 2.5, -0.02, 0.3,
+             1e-319, -3e-321, 5e-324, 1e-300, -1e-200]
 BASES = [None, 2.0, 10.0, math.e, 1.5]
 
 
@@ -231,7 +235,12 @@ class Ref:
         if nm == "Sinh":
             nu, sc = p["nu"], p["scale"]
             u = rng.choice([-1.0, 1.0], size=n) * 10.0 ** rng.uniform(-6, 8, size=n)
-            return u / sc + nu
+            # ... and both far tails, up to where u * u is still a finite double
+            k = max(2, n // 10)
+            u[:k] = rng.choice([-1.0, 1.0], size=k) * 10.0 ** rng.uniform(100, 153, size=k)
+            with np.errstate(all="ignore"):
+                x = u / sc + nu
+            return x[np.isfinite(x)]
         if nm == "LogSinh":
             # (w beyond 710 is where sinh itself overflows: the transform is linear
             # there and must stay finite)
